@@ -71,12 +71,13 @@ def check_layout(spec, blk, f, accel, case):
         ub = A["ofm_ub"]
         ih = -(-required_ifm_dim(bh, sy, dy * (kh - 1) + 1, up, nearest) // ub[0]) * ub[0]
         iw = -(-required_ifm_dim(bw, sx, dx * (kw - 1) + 1, up, nearest) // ub[1]) * ub[1]
-        if kind == "conv":
+        if kind == "conv" or (kind == "pool" and spec.get("mode") == "REDUCE_SUM"):
+            # operations that accumulate over the IFM depth take IFM blocks of the IFM's own (bounded) depth; REDUCE_SUM is one of them
             ifm_depth = spec["ifm"]["shape"][2]
             if ifm_bits == 16:
                 idepth = -(-min(ifm_depth, 16) // 4) * 4
             else:
-                idepth = -(-min(ifm_depth, 16 if spec["part_kernel"] else 32) // A["ifm_ub"][2]) * A["ifm_ub"][2]
+                idepth = -(-min(ifm_depth, 16 if spec.get("part_kernel") else 32) // A["ifm_ub"][2]) * A["ifm_ub"][2]
         else:
             idepth = bd
     ifm_bytes = ih * iw * (-(-(idepth * ifm_bits // 8) // 8) * 8)
